@@ -166,6 +166,7 @@ struct PlanView {
   std::string file, image, input, progName;
   uint64_t maxCycles = 50000;
   bool hasPoweron = false; uint64_t poweron = 1;
+  bool stdinClosed = false;    // the process is started with descriptor 0 closed (sim::fs::setStdinClosed)
   bool hasPlant = false; uint32_t pc = 0, a = 0, b = 0, o = 0;
   std::string memKind = "random"; uint64_t memSeed = 0;
   std::vector<std::pair<uint32_t, uint32_t>> words;   // planted words (outside the loaded file)
@@ -190,7 +191,9 @@ PlanView view(const Json &plan) {
     else if (k == "plant_word") { v.hasPlant = true; v.words.push_back({(uint32_t)op.getU64("addr") % RTLW, (uint32_t)op.getU64("value")}); }
     else if (k == "simin") { unsigned i = (unsigned)(op.getU64("idx") & 7); v.siminPresent[i] = true; v.simin[i] = sim::fromHex(op.getStr("hex")); }
     else if (k == "options") v.trace = op.getBool("trace");
+    else if (k == "stdin_closed") v.stdinClosed = true;
   }
+  if (v.stdinClosed) v.input.clear();        // nothing can be read from a closed descriptor
   v.image = imageOfFile(v.file);
   return v;
 }
@@ -205,6 +208,7 @@ struct Classified {
   std::string out; size_t consumed = 0;
   std::string fileOut[8]; bool fileOutCreated[8] = {};
   unsigned syscalls = 0;
+  bool usesFileStreams = false;
 };
 hexref::Machine *g_ref;
 Classified classify(const PlanView &v, bool needWritten) {
@@ -241,6 +245,7 @@ Classified classify(const PlanView &v, bool needWritten) {
       c.out = rio.out; c.consumed = rio.inPos;
       for (int k = 0; k < 8; k++) { c.fileOut[k] = rio.fileOut[k]; c.fileOutCreated[k] = rio.fileOutCreated[k]; }
       if (rio.missingFileReads) { c.judged = false; c.why = "read_missing_simin"; }
+      for (int k = 0; k < 8; k++) if (rio.fileMode[k] != hexref::Io::CLOSED) c.usesFileStreams = true;
       return c;
     }
   }
@@ -322,6 +327,9 @@ public:
     bool plant = c13 ? r.chance(3, 5) : r.chance(1, 6);
     if (!plant) {
       Json op = Json::object(); op["op"] = "poweron"; op["seed"] = (unsigned long long)(r.next() >> 20); ops.push(op);
+      // The process may be started with standard input closed: the first file the tool opens and keeps
+      // open is then what the program reads as its console.
+      if (!c13 && r.chance(1, 10)) { Json sc = Json::object(); sc["op"] = "stdin_closed"; ops.push(sc); }
     } else {
       // Adversarial power-on state: garbage pc pointing at a byte that decodes to a store or an SVC,
       // operand/base registers aimed at the image, the stack pointer word or the stack.
@@ -567,11 +575,19 @@ public:
     uint64_t watchdog = c.steps + 64;
     logFaults(v);
     std::string inv;
+    // Closed standard input is only simulated for programs that use no file streams (with them the
+    // first simin/simout file itself lands on descriptor 0 in both tools, which the ISA model does not
+    // describe).
+    bool closed = v.stdinClosed && !v.hasPlant && !c.usesFileStreams;
+    if (closed) { o.count("fault.stdin_closed"); sim::g_log.ev("stdin_closed", 1); }
+    sim::fs::setStdinClosed(closed);
     ToolOutcome tb = v.hasPlant ? runTbPlanted(v, false, watchdog, &inv) : runTbMain(v, v.poweron, watchdog, &inv);
     o.count(v.hasPlant ? "fault.planted_state" : "fault.verilator_seed");
     o.simCycles = g_tick.ticks / 2;
     sim::g_log.evs("hextb", tb.str());
+    sim::fs::setStdinClosed(closed);
     ToolOutcome hs = runHexsim(v, 0);
+    sim::fs::setStdinClosed(false);
     o.simInstr = c.steps;
     sim::g_log.evs("hexsim", hs.str());
     o.nontrivial = c.syscalls > 0;
